@@ -93,7 +93,7 @@ func runPhase(c *vlib.Ctx, bin, kind string, from, n int, reduced bool, par int,
 }
 
 func checkC03(c *vlib.Ctx) {
-	c.Rule("a case = one real ArrowBuffer over a real local storage backend with randomized MaxBufferSize (1..100000), MaxBufferAgeMS (10 ms..60 s), FlushWorkers 1-8, ShardCount 1-32, compression/dictionary/page-version, optional decimal(18,4) column, optional pause inside the storage write (where arc has released the shard lock); 1-8 writer goroutines issue WriteColumnarRecord / WriteColumnarDirect / Write (columnar, typed, row-format and mixed multi-record, msgpack-decoded typed and generic records) / WriteTypedColumnarDirect over 1-2 databases x 1-3 measurements; batch schemas are subsets of a 6-column pool (recurring variants plus per-batch type changes), 10%/50% nulls and all-null columns, every TypedColumnBatch validity representation; timestamps single-hour / pre-sorted / multi-hour (2-12 h) / +-1 us around hour boundaries / straddling the epoch / far pre-1970 / one instant; concurrent mid-run FlushAll calls; in the churn class extra writes with foreign schemas are issued from inside the storage write of a flush (the window in which arc has released the shard lock) to drive the schema-change loop to its cap. Triggers exercised: size, age timer, schema change, FlushAll, Close. After writers stop the case quiesces (final mode explicit: FlushAll; age: wait for the timer alone; close: drain, write a below-threshold tail, Close immediately), then every Parquet file is read back with arrow-go. non-trivial = distinct case whose stored rows were compared; interleavings are counted as distinct file compositions (sets of writer:batch per stored file)")
+	c.Rule("a case = one real ArrowBuffer over a real local storage backend with randomized MaxBufferSize (1..100000), MaxBufferAgeMS (10 ms..60 s), FlushWorkers 1-8, ShardCount 1-32, compression/dictionary/page-version, optional decimal(18,4) column, optional pause inside the storage write (where arc has released the shard lock); 1-8 writer goroutines issue WriteColumnarRecord / WriteColumnarDirect / Write (columnar, typed, row-format and mixed multi-record, msgpack-decoded typed and generic records) / WriteTypedColumnarDirect over 1-2 databases x 1-3 measurements; batch schemas are subsets of a 6-column pool (recurring variants plus per-batch type changes), 10%/50% nulls and all-null columns, every TypedColumnBatch validity representation; timestamps single-hour / pre-sorted / multi-hour (2-12 h) / +-1 us around hour boundaries / straddling the epoch / far pre-1970 / one instant; in ~60% of the cases 1-2 extra writers send to one database/measurement (own or shared with the regular workload) batches whose 2-3 value columns keep their names while their pairwise distinct types are exchanged/rotated among them from phase to phase (both directions, 8-12 phases of 1-3 batches per writer, optional fixed-type columns, all single-batch entry points): every phase change is a schema-change flush between two schemas with equal column names and equal type multisets; concurrent mid-run FlushAll calls; in the churn class extra writes with foreign schemas are issued from inside the storage write of a flush (the window in which arc has released the shard lock) to drive the schema-change loop to its cap. Triggers exercised: size, age timer, schema change, FlushAll, Close. After writers stop the case quiesces (final mode explicit: FlushAll; age: wait for the timer alone; close: drain, write a below-threshold tail, Close immediately), then every Parquet file is read back with arrow-go. non-trivial = distinct case whose stored rows were compared; interleavings are counted as distinct file compositions (sets of writer:batch per stored file)")
 	c.Assume("a write is accepted iff the exported call returned nil; rows of a multi-record Write() that returned an error are indeterminate (stored at most once) because records before the failing one were buffered individually")
 	c.Assume("documented coercions only: any Go integer kind -> int64, float32 -> float64 (exact values), decimal inputs (string / integer / float64 multiple of 0.25 / decimal128) -> decimal(18,4); a column is homogeneous within one batch; an all-null column is stored as an all-null column of any type; in the row format a null cell is an omitted field and a zero Timestamp means unset (not generated)")
 	c.Assume("column names are plain (no empty or '_'-prefixed names: C04); no WAL attached; flush queue capacity 131072 is never reached (overflow: C07); GetStats counters are used only to wait, never to decide; a case whose wait expires is still compared when the flush queue was empty at Close (then nothing was abandoned by Close and what is absent was dropped by a flush), otherwise it is inconclusive")
